@@ -16,7 +16,7 @@ RULE = ("histories of ~18 steps over 1-3 proxies and 1-5 concurrently open strea
         "{0,5} x ITER_STREAM_LINGER {0,3} x both server types. distinct = (history hash, step); non-trivial = the step concerns an open stream")
 ASSUMPTIONS = ["the virtual clock starts at 1e9 (a linger stamp of 0 means 'none' in Pyro's code)", "after every client-side disconnect / oneway close the harness waits for the server-side event (10 s watchdog, expiry = inconclusive)",
                "a stream whose deadline has passed may be forgotten at any time until the next explicit housekeeping step, after which it must be gone"]
-REQUIRED_REACH = ["items_ok", "stopiteration_ok", "generator_exception_ok", "forgotten_ok", "reconnect_continues", "linger_expired", "lifetime_expired", "table_checked", "streaming_disabled_ok", "racing_reconnects", "server_ended_connections"]
+REQUIRED_REACH = ["items_ok", "stopiteration_ok", "generator_exception_ok", "forgotten_ok", "reconnect_continues", "linger_expired", "lifetime_expired", "table_checked", "streaming_disabled_ok", "racing_reconnects", "server_ended_connections", "housekeeping_during_fetch"]
 SHARD_TIMEOUT = {"quick": 240, "thorough": 3000}
 
 
@@ -49,6 +49,7 @@ class CountingIter(object):
 
 
 SPECS = {}     # key -> (items, raises_at_end, kind)
+GATES = {}     # key -> (entered Event, release Event): while present, the generator of that key parks before producing its next item
 
 
 def make_service(P):
@@ -59,6 +60,10 @@ def make_service(P):
             if kind == "gen":
                 def g():
                     for x in items:
+                        gate = GATES.get(key)
+                        if gate is not None:
+                            gate[0].set()
+                            gate[1].wait(5)          # a generator that is slow to produce an item (the fetch is in progress meanwhile)
                         yield x
                     if raises:
                         raise ValueError("boom-" + key)
@@ -91,6 +96,7 @@ class MStream:
         self.created = created
         self.linger_at = 0
         self.client_done = False
+        self.key = self.kind = None
 
 
 def run_history(fx, vclock, rec, r, cfg, nsteps, hh):
@@ -158,6 +164,7 @@ def run_history(fx, vclock, rec, r, cfg, nsteps, hh):
                 if not cfg["streaming"]:
                     return fail("streaming-not-disabled", "ITER_STREAMING is off but open() returned %r" % (it,), step)
                 ms = MStream(it.streamId, i, conns[i], SPECS[key][0], SPECS[key][1], vclock.now)
+                ms.key, ms.kind = key, SPECS[key][2]
                 streams.append((ms, it))
                 if ms.sid not in table():
                     return fail("stream-not-registered", "the server's stream table does not hold the new stream", step)
@@ -235,7 +242,7 @@ def run_history(fx, vclock, rec, r, cfg, nsteps, hh):
                         if ms.state != "gone":
                             return fail("closed-stream-not-forgotten", "server still holds the stream 10 s after close()", step)
                     ms.state = "gone"
-            elif k < 0.77:
+            elif k < 0.76:
                 i = r.randrange(nprox)
                 if proxies[i]._pyroConnection is None:
                     continue
@@ -254,6 +261,61 @@ def run_history(fx, vclock, rec, r, cfg, nsteps, hh):
                         else:
                             ms.state = "gone"
                 conns[i] = None
+            elif k < 0.775:
+                # housekeeping runs while a fetch is in progress (the generator is slow to produce its item), possibly past the stream's lifetime
+                cands = [(ms, it) for ms, it in live if ms.kind == "gen" and ms.state == "alive" and ms.pos < len(ms.items)
+                         and proxies[ms.proxy_i]._pyroConnection is not None and not ms.linger_at]
+                if not cands:
+                    continue
+                ms, it = r.choice(cands)
+                dt = r.choice([0.5, 6.0])
+                pay["steps"].append(("housekeeping-during-fetch", ms.sid[:6], dt))
+                rec.case((repr(sorted(cfg.items())), hh, step), nontrivial=True)
+                p = proxies[ms.proxy_i]
+                gate = (threading.Event(), threading.Event())
+                GATES[ms.key] = gate
+                box = {}
+
+                def fetch(p=p, it=it):
+                    try:
+                        p._pyroClaimOwnership()
+                        box["got"] = ("item", next(it))
+                    except StopIteration:
+                        box["got"] = ("stop",)
+                    except P.errors.PyroError as x:
+                        box["got"] = ("pyroerror", str(x))
+                    except Exception as x:
+                        box["got"] = ("other", repr(x))
+                th = threading.Thread(target=fetch, daemon=True)
+                th.start()
+                hk_error = None
+                try:
+                    if not gate[0].wait(5):
+                        rec.inconc("the gated generator was not entered within the watchdog")
+                    vclock.now += dt
+                    expire(vclock.now)
+                    try:
+                        d._housekeeping()
+                    except Exception as x:
+                        hk_error = x
+                finally:
+                    GATES.pop(ms.key, None)
+                    gate[1].set()
+                    th.join(10)
+                    p._pyroClaimOwnership()
+                if hk_error is not None:
+                    return fail("housekeeping-raises", "Daemon._housekeeping() raised %r while a fetch from stream %s was in progress "
+                                "(the thread that runs housekeeping dies with it: nothing is expired any more)" % (hk_error, ms.sid[:6]), step)
+                got = box.get("got", ("other", "fetch thread did not finish"))
+                if got[0] == "item" and gen.deep_eq(normalise(got[1]), normalise(ms.items[ms.pos])):
+                    ms.pos += 1
+                    rec.count("items_ok")
+                elif not (got[0] == "pyroerror" and ms.state == "maybe"):
+                    return fail("stream-item-wrong", "fetch overlapping housekeeping: expected item %d = %r, client got %r" % (ms.pos, ms.items[ms.pos], got), step)
+                for other, _ in streams:
+                    if other.state == "maybe":
+                        other.state = "gone"
+                rec.count("housekeeping_during_fetch")
             elif k < 0.79:
                 # the SERVER ends the connection (a request whose arguments carry a forbidden class tag: security error): for the streams
                 # of that connection this is a disconnect like any other
@@ -335,7 +397,10 @@ def run_history(fx, vclock, rec, r, cfg, nsteps, hh):
             else:
                 pay["steps"].append(("housekeeping",))
                 expire(vclock.now)
-                d._housekeeping()
+                try:
+                    d._housekeeping()
+                except Exception as x:
+                    return fail("housekeeping-raises", "Daemon._housekeeping() raised %r" % (x,), step)
                 for ms, _ in streams:
                     if ms.state == "maybe":
                         ms.state = "gone"
